@@ -232,3 +232,18 @@ func (c *Conn) ParkNoDeadlineOffsets() []int {
 	defer c.w.mu.Unlock()
 	return append([]int(nil), c.ParkNoDeadline...)
 }
+
+// Accepted tells whether the broker accepted the CONNECT of this connection
+// (read under the world lock; State is written by the client's writers).
+func (c *Conn) Accepted() bool {
+	c.w.mu.Lock()
+	defer c.w.mu.Unlock()
+	return c.State.Accepted
+}
+
+// AliveNow is Alive for callers which do not hold the world lock.
+func (c *Conn) AliveNow() bool {
+	c.w.mu.Lock()
+	defer c.w.mu.Unlock()
+	return c.Alive()
+}
